@@ -8,6 +8,8 @@ CONSTANTS
   MaxIds = 5
   WTick = 6
   WData = 3
+  WConn = 4
+  DisruptEvery = 3
   MaxDepth = 1000
 INVARIANT InvWithinCapacity
 INVARIANT InvConnsIssued
